@@ -152,8 +152,11 @@ def k_args(run, case):
     elif fname == "result_to_df":
         m = metrics.APE(metrics.PoseRelation.translation_part)
         m.process_data((A, B))
-        r = m.get_result()
-        guarded(run, case, fname, {"result": r}, lambda: pandas_bridge.result_to_df(r))
+        r = m.get_result("runs/a/ref.tum", "runs/a/est.tum") if rng.random() < .7 else m.get_result()
+        # optional arguments spelled out: an explicit column label (evo_res --use_filenames does that)
+        label = [None, "run_a.zip", "label with space"][rng.integers(3)]
+        guarded(run, case, fname, {"result": r}, lambda: pandas_bridge.result_to_df(r, label) if rng.random() < .5
+                else pandas_bridge.result_to_df(r, label=label))
     elif fname == "trajectory_stats_to_df":
         guarded(run, case, fname, {"traj": A}, lambda: pandas_bridge.trajectories_stats_to_df({"a": A, "b": B}))
     elif fname == "getters":
